@@ -165,6 +165,9 @@ fn alpha(_cfg: &Cfg) -> Vec<Op> {
     v.push(c(lfs(3)).kind(Kind::FeedChars));
     v.push(t("bcdefgh").kind(Kind::FeedChars));
     v.push(c(Seq(vec![DecSet(vec![1049]), lfs(4)])).kind(Kind::FeedChars));
+    // leaving the alternate screen through feed() while the primary holds untrimmed rows
+    v.push(c(DecRst(vec![1049])).kind(Kind::FeedChars));
+    v.push(c(DecRst(vec![1047])).kind(Kind::FeedChars));
     v
 }
 
